@@ -1,12 +1,16 @@
 package transaction
 
 import (
+	"sync"
+
 	"github.com/glebziz/containers/omap"
 
 	"github.com/glebziz/fs_db/internal/model"
 )
 
 type Repo struct {
+	// m guards storage: iterating an omap is not synchronised with its Store and Delete.
+	m       sync.RWMutex
 	storage *omap.OMap[string, model.Transaction]
 }
 
